@@ -142,4 +142,33 @@ theorem entries_init_first : ∀ e ∈ Gen.entryPoints, e.2.2 = true → e.2.1 =
 example : (let rbp : Int := 2 * 110 + 1; rbp < 2 * 111) := by decide
 example : alookup ['g'] (replay ([] : List (Name × Nat)) [(['g'], 1), (['h'], 5), (['g'], 2)]) = some 2 := by decide
 
+/-! ### the driver's compaction of the registries is invisible to look-ups -/
+
+theorem alookup_filter_ne {β : Type} (k n : Name) (hk : k ≠ n) : ∀ l : List (Name × β),
+    alookup k (l.filter (fun y => y.1 != n)) = alookup k l
+  | [] => rfl
+  | (k', v) :: r => by
+    by_cases h : k' = n
+    · subst h
+      have hne : ¬ k' = k := fun e => hk e.symm
+      simp [List.filter, alookup_cons, hne, alookup_filter_ne k k' hk r]
+    · have : ((k', v).1 != n) = true := by simpa using h
+      simp only [List.filter, this, alookup_cons, alookup_filter_ne k n hk r]
+
+theorem alookup_dropOlder {β : Type} (k : Name) : ∀ l : List (Name × β), alookup k (Regs.dropOlder l) = alookup k l
+  | [] => rfl
+  | (k', v) :: r => by
+    simp only [Regs.dropOlder, alookup_cons]
+    by_cases h : k' = k
+    · simp [h]
+    · simp only [h, if_false]
+      exact alookup_filter_ne k k' (fun e => h e.symm) r
+
+/-- Compacting the registries (dropping entries hidden by a newer registration of the same name) changes no look-up:
+same operators, same precedences, same handlers. -/
+theorem compact_lookup (r : Regs) (n : Name) :
+    alookup n r.compact.pre = alookup n r.pre ∧ alookup n r.compact.inf = alookup n r.inf ∧
+    alookup n r.compact.post = alookup n r.post ∧ alookup n r.compact.fns = alookup n r.fns :=
+  ⟨alookup_dropOlder n _, alookup_dropOlder n _, alookup_dropOlder n _, alookup_dropOlder n _⟩
+
 end EE.Props.C08
